@@ -4529,10 +4529,50 @@ void SoPlexBase<R>::getBasisInd(int* bind) const
    // class might be set to automatic
    else if(_solver.rep() == SPxSolverBase<R>::COLUMN)
    {
-      for(int i = 0; i < numRows(); ++i)
+      // after rows or columns were removed the id array of the basis is only rebuilt when the basis matrix is set up again;
+      // until then it may name removed or nonbasic variables: check it and fall back to the basis statuses
+      bool idsValid = true;
+      std::vector<char> seen(numRows() + numCols(), 0);
+
+      for(int i = 0; i < numRows() && idsValid; ++i)
       {
          SPxId id = _solver.basis().baseId(i);
-         bind[i] = (id.isSPxColId() ? _solver.number(id) : - 1 - _solver.number(id));
+         int pos = -1;
+
+         if(id.isSPxColId() && _solver.has(SPxColId(id)) && _solver.isColBasic(_solver.number(SPxColId(id))))
+            pos = numRows() + _solver.number(SPxColId(id));
+         else if(id.isSPxRowId() && _solver.has(SPxRowId(id)) && _solver.isRowBasic(_solver.number(SPxRowId(id))))
+            pos = _solver.number(SPxRowId(id));
+
+         if(pos < 0 || seen[pos])
+            idsValid = false;
+         else
+            seen[pos] = 1;
+      }
+
+      if(idsValid)
+      {
+         for(int i = 0; i < numRows(); ++i)
+         {
+            SPxId id = _solver.basis().baseId(i);
+            bind[i] = (id.isSPxColId() ? _solver.number(id) : - 1 - _solver.number(id));
+         }
+      }
+      else
+      {
+         int k = 0;
+
+         for(int i = 0; i < numRows() && k < numRows(); ++i)
+         {
+            if(_solver.isRowBasic(i))
+               bind[k++] = -1 - i;
+         }
+
+         for(int j = 0; j < numCols() && k < numRows(); ++j)
+         {
+            if(_solver.isColBasic(j))
+               bind[k++] = j;
+         }
       }
    }
    // for row representation, return the complement of the row basis; for this, we need to loop through all rows and columns
